@@ -2,6 +2,7 @@ package verifh
 
 import (
 	"bufio"
+	"bytes"
 	"encoding/base32"
 	"encoding/hex"
 	"encoding/json"
@@ -854,6 +855,28 @@ func drawRestStep(t *rapid.T) restStep {
 }
 
 func TestC18_Endpoints(t *testing.T) {
+	// structured suites as a grid: every challenge format x challenge lengths at, just above and far above the format's minimum,
+	// every password hash - generation and validation of the generated code. The numbers of the two enumerations travel
+	// through the service's own mapping; a table in another order gives 8-byte challenges the 10-byte rule (or the reverse)
+	// for two of the six formats only, which the random sequences met at three seeds of four (C18-r12b)
+	i := 0
+	key := []byte("12345678901234567890")
+	for qf := 1; qf <= 6; qf++ {
+		for _, extra := range []int{0, 1, 118} {
+			for ph := 0; ph <= 3; ph++ {
+				if i++; !ev.Mine(i) {
+					continue
+				}
+				cfg := ref.OCRACfg{Hash: qf % 3, Digits: 6 + qf%3, Q: true, QFormat: qf, P: ph != 0, PHash: ph}
+				in := ref.OCRAIn{Q: bytes.Repeat([]byte{'1' + byte(qf)}, ref.QMin(qf)+extra)}
+				if ph != 0 {
+					in.P = bytes.Repeat([]byte{0xA0 + byte(ph)}, ref.PLen(ph))
+				}
+				st := restStep{Ep: "chain-ocra", Key: key, Sp: gen.Spelling{Pad: 1}, Cfg: cfg, HashStr: []string{"SHA1", "SHA256", "SHA512"}[cfg.Hash], In: in}
+				c18Main.each(t, c18Case{Steps: []restStep{st}, Conc: 1})
+			}
+		}
+	}
 	c18Main.rapid(t, ev.Pick(600, 12_000), func(t *rapid.T) c18Case {
 		n := rapid.IntRange(1, 12).Draw(t, "n")
 		concs := []int{1, 1, 2, 4, 8}
